@@ -221,6 +221,15 @@ func randCaseName(c *Ctx, s string) string {
 
 func propC08(c *Ctx) {
 	pool := valuePool()
+	// calendar functions (DayOfWeek) read a date-time in its own zone; the model has instants only, so the
+	// function stream keeps to zone offset 0 (the zone variants of the pool are for the operators, C06)
+	var utcTimes []*variants.Variant
+	for _, t := range pool["time"] {
+		if _, off := t.AsDateTime().Zone(); off == 0 {
+			utcTimes = append(utcTimes, t)
+		}
+	}
+	pool["time"] = utcTimes
 	var all []*variants.Variant
 	for _, tn := range typeNames {
 		all = append(all, pool[tn]...)
